@@ -558,3 +558,19 @@ def desubroutinize_keeps_outline(shape, width):
     after, w1 = _draw_cs(flat)
     ob('same-outline', events_eq(before, after))
     ob('same-width', eq(w0, w1))
+
+
+@kernel('C12', funcs=['misc/psCharStrings.py:T2StackUseExtractor.execute', 'misc/psCharStrings.py:SimpleT2Decompiler.execute'],
+        bounds='charstrings rmoveto + one operator with k operands, k from 40 to 52 around the CFF limit of 48 (rlineto / hlineto / rrcurveto forms), with and '
+               'without a width operand, all operands symbolic: the reported maximum operand-stack depth equals the number of operands pushed before the operator '
+               '(what convertCFF2ToCFF compares with 48)',
+        quick=[dict(op='hlineto', k=k, width=w) for k in (47, 48, 49) for w in (0, 1)] + [dict(op='rlineto', k=48, width=1)],
+        thorough=[dict(op=o, k=k, width=w) for o in ('hlineto', 'rlineto') for k in (40, 46, 47, 48, 49, 50, 52) for w in (0, 1) if o != 'rlineto' or k % 2 == 0])
+def stack_use_is_true_depth(op, k, width):
+    args = [V.real('a%d' % i, -100, 100) for i in range(k)]
+    w = [V.real('w', 0, 900)] if width else []
+    prog = w + [args[0], args[1], 'rmoveto'] + args + [op, 'endchar']
+    cs = T2CharString(program=list(prog), private=Priv())
+    ext = PS.T2StackUseExtractor([], [], private=cs.private)
+    depth = ext.execute(cs)
+    ob('max-depth', depth == max(k, 2 + width))
